@@ -398,7 +398,9 @@ class ScoredCollector(Collector):
                     # If the weighting has a final() hook, minscore is in
                     # final() units while the matcher's quality bounds are
                     # not, so only replace structurally (threshold 0)
-                    if self.final_fn:
+                    if self.final_fn or not matcher.supports_block_quality():
+                        # (also: a matcher whose scorers have no quality
+                        # bounds cannot compare itself with a minimum score)
                         matcher = matcher.replace(0)
                     else:
                         if minscore:
